@@ -9,10 +9,11 @@ from pathlib import Path
 from . import common, storelib as S
 
 
-def write_dataset(d: Path, evs, fname="data.json") -> Path:
+def write_dataset(d: Path, evs, fname="data.json", ty_name=None) -> Path:
     data = d / "data"
     data.mkdir(exist_ok=True)
-    spans = [dict(job_name=S.s_name(e["name"]), job_id=S.s_job(e["job"]), event_type=S.s_ty(e["ty"]), event_id=S.s_id(e["id"]),
+    ty_name = ty_name or S.s_ty
+    spans = [dict(job_name=S.s_name(e["name"]), job_id=S.s_job(e["job"]), event_type=ty_name(e["ty"]), event_id=S.s_id(e["id"]),
                   start_timestamp=e["st"], end_timestamp=e["en"], application_name=S.s_app(e["app"]),
                   parent_event_id=S.s_id(e["par"]) if e["par"] is not None else None) for e in evs]
     (data / fname).write_text(json.dumps({"spans": spans}))
